@@ -221,10 +221,10 @@ func runC11(c *Ctx) {
 			recv := val.Params[0]
 			isGeneric := func(v ssa.Value) bool {
 				call, ok := v.(*ssa.Call)
-				return ok && calleeName(call) == "reflect.ValueOf" && stripConv(call.Common().Args[0]) == ssa.Value(recv)
+				return ok && calleeName(call) == "reflect.ValueOf" && c.isParamOrForwarded(stripConv(call.Common().Args[0]), recv)
 			}
 			nconv := 0
-			allInstrs(val, func(in ssa.Instruction) {
+			p.coneInstrs(val, func(in ssa.Instruction) {
 				ci, ok := in.(*ssa.Call)
 				if !ok || !ci.Common().IsInvoke() {
 					return
@@ -257,18 +257,21 @@ func runC11(c *Ctx) {
 				}
 				bad := false
 				seenRet := false
-				reachFromBlock(failBranch, func(x ssa.Instruction) bool {
+				srch := newIPSearch(func(x ssa.Instruction) bool {
 					rt, ok := x.(*ssa.Return)
-					if !ok {
+					if !ok || rt.Parent() != val {
 						return false
 					}
 					seenRet = true
-					if !isGeneric(rt.Results[0]) || !failBranch.Dominates(rt.Block()) {
+					if !isGeneric(rt.Results[0]) {
 						bad = true
 						c.bad("R11.2", construct, c.ipos(rt), "after a failed conversion the function does not return the generic error value itself (it falls through to code that may dereference it or return a non-error / zero value): the caller gets a panic or a nil error")
 					}
 					return false
 				}, nil)
+				srch.up = true
+				srch.stop = val
+				srch.scan(failBranch, 0, nil)
 				if !bad && seenRet {
 					c.ok("R11.2", construct, c.ipos(ci), "failure branch returns reflect.ValueOf(generic error) directly")
 				} else if !seenRet {
